@@ -199,6 +199,11 @@ func (s *Segment) readListPtr(base address, val rawPointer) (List, error) {
 		}
 		sz := hdr.structSize()
 		n := int32(hdr.offset())
+		if n < 0 {
+			// With zero-sized elements a negative count passes the bounds
+			// checks below and would yield a list with a negative length.
+			return List{}, newError("composite list pointer: element count out of range")
+		}
 		// TODO(someday): check that this has the same end address
 		if tsize, ok := sz.totalSize().times(n); !ok {
 			return List{}, newError("composite list pointer: size overflow")
